@@ -157,7 +157,22 @@ func runC19(r *Run, rng *Rng, thorough bool) {
 					// every issued token decodes and verifies on its own
 					e2, err := psa.DecodeEvidenceFromCOSE(append([]byte{}, st.token...))
 					if err != nil {
-						fails = append(fails, pend{"issued-token-valid", fmt.Sprintf("step %d: issued token does not decode: %v", i, err)})
+						// an unvalidated Sign may have been given claims whose declared profile is not registered (or whose
+						// payload the claims decoder refuses): the token is then still a valid COSE_Sign1 — judged with
+						// go-cose directly — it just does not carry PSA claims anybody can decode
+						valid := ev.Claims.Validate() == nil
+						var m cose.Sign1Message
+						okEnvelope := false
+						if m.UnmarshalCBOR(st.token) == nil {
+							if alg, aerr := m.Headers.Protected.Algorithm(); aerr == nil {
+								if v, verr := cose.NewVerifier(alg, ks[o.Key].pub); verr == nil {
+									okEnvelope = m.Verify([]byte(""), v) == nil
+								}
+							}
+						}
+						if valid || o.Kind == "vsign" || !okEnvelope {
+							fails = append(fails, pend{"issued-token-valid", fmt.Sprintf("step %d: issued token does not decode: %v (claims valid=%v, envelope verifies=%v)", i, err, valid, okEnvelope)})
+						}
 					} else if err := e2.Verify(ks[o.Key].pub); err != nil {
 						fails = append(fails, pend{"issued-token-valid", fmt.Sprintf("step %d: issued token does not verify: %v", i, err)})
 					}
